@@ -6,10 +6,11 @@ WT=/tmp/confirm/$NAME
 mkdir -p /tmp/confirm; git -C /repo worktree remove --force "$WT" 2>/dev/null; rm -rf "$WT"
 git -C /repo worktree add -q --detach "$WT" HEAD || exit 2
 cd "$WT"
-cp "$SRC/demo.py" demo_seed.py
-PYTHONPATH=$WT timeout 900 /venv/bin/python demo_seed.py >/tmp/confirm/$NAME.a.log 2>&1; A=$?
+# the demo keeps the place it was written at (<tree>/out/<dir>/demo.py): some demos locate the repository's test data relative to it
+DD=out/$(basename "$SRC"); mkdir -p "$DD"; cp "$SRC/demo.py" "$DD/demo.py"
+PYTHONPATH=$WT timeout 900 /venv/bin/python "$DD/demo.py" >/tmp/confirm/$NAME.a.log 2>&1; A=$?
 git apply "$SRC/patch.diff" || { echo "patch does not apply"; A=applyfail; }
-PYTHONPATH=$WT timeout 900 /venv/bin/python demo_seed.py >/tmp/confirm/$NAME.b.log 2>&1; B=$?
+PYTHONPATH=$WT timeout 900 /venv/bin/python "$DD/demo.py" >/tmp/confirm/$NAME.b.log 2>&1; B=$?
 PYTHONPATH=$WT timeout 1800 /venv/bin/python -m pytest -q -p no:cacheprovider --timeout=900 -n 4 tests \
   --deselect tests/test_notebooks.py --deselect tests/test_pandora.py::TestPandora::test_dataset_image >/tmp/confirm/$NAME.c.log 2>&1; C=$?
 TAIL=$(tail -1 /tmp/confirm/$NAME.c.log)
